@@ -969,6 +969,10 @@ func newScanner(i io.Reader) *bufio.Scanner {
 				return i + 1, data[0:i], nil
 			}
 			advance = i + 1
+			if len(data) == i+1 && !atEOF {
+				// The carriage return is the last byte read so far: a line feed may still follow, request more data.
+				return 0, nil, nil
+			}
 			if len(data) > i+1 && data[i+1] == '\n' {
 				advance += 1
 			}
